@@ -14,10 +14,7 @@ pub fn register(v: &mut Vec<Box<dyn Prop>>) {
     v.push(Box::new(C19));
 }
 
-fn rt() -> &'static tokio::runtime::Runtime {
-    static RT: OnceLock<tokio::runtime::Runtime> = OnceLock::new();
-    RT.get_or_init(|| tokio::runtime::Builder::new_multi_thread().worker_threads(2).max_blocking_threads(8).build().expect("tokio runtime"))
-}
+static RT: crate::util::LazyRt = crate::util::LazyRt::new(2);
 
 /// Exclusive side is taken by the descriptor-leak block.
 static FD_LOCK: RwLock<()> = RwLock::new(());
@@ -171,7 +168,7 @@ fn run_dir(c: &DirCase, sink: &mut Sink) -> (Verdict, Option<u64>, Value) {
     let d = if c.auto_gzip { dirs().0.clone() } else { dirs().1.clone() };
     let h2 = hdrs.clone();
     let p2 = path.clone();
-    let r = crate::util::catch(|| rt().block_on(async move { d.get(&p2, &h2).await }));
+    let r = crate::util::catch(|| RT.with(|rt| rt.block_on(async move { d.get(&p2, &h2).await })));
     let r = match r {
         Err(p) => return (Verdict::viol(format!("panic@{}", norm_loc(&p)), format!("FsDir::get({:?}) panicked: {}", show(&c.path), p)), None, desc),
         Ok(r) => r,
